@@ -31,6 +31,8 @@ type Config struct {
 	NoEcho bool
 	// EmptyOverride enables the wrapper kind whose full message is "".
 	EmptyOverride bool
+	// UserStack enables the application-defined wrapper with StackTrace().
+	UserStack bool
 }
 
 // Gen generates trees.
@@ -58,6 +60,9 @@ func New(t *tape.Tape, cfg Config) *Gen {
 	}
 	if !cfg.EmptyOverride {
 		g.enabled[WUFullEmpty] = false
+	}
+	if !cfg.UserStack {
+		g.enabled[WUStack] = false
 	}
 	if cfg.Swarm {
 		// Each optional group is switched off with probability 1/4.
